@@ -114,10 +114,13 @@ func scalarLife(c *ctx, r *rand.Rand, vals []*big.Int) {
 				obj.Sum(obj, scFrom(am), obj)
 			case "prod":
 				obj.Product(obj, scFrom(am), obj)
-			case "setu64":
+			case "setu64": // the long-lived object is now whatever the constructor handed out (0 and 1 come up often): it is OURS to mutate
 				u := r.Uint64() >> uint(r.Intn(40))
+				if r.Intn(2) == 0 {
+					u = uint64(r.Intn(3))
+				}
 				arg = h32(new(big.Int).SetUint64(u))
-				*obj = *secp256k1.NewScalarFromUint64(u) // the value object is overwritten wholesale, as the constructors do
+				obj = secp256k1.NewScalarFromUint64(u)
 			}
 			observe(op, arg, ctrl)
 		}
@@ -137,7 +140,7 @@ func fieldLife(c *ctx, r *rand.Rand, vals []*big.Int) {
 			"copy", hx(cp.Bytes()), "copy_isodd", int(cp.IsOdd()), "copy_iszero", int(cp.IsZero()), "eqcopy", int(obj.Equal(cp)),
 			"other", hx(other.Bytes()), "other_isodd", int(other.IsOdd()), "bytes_again", hx(obj.Bytes()))
 	}
-	ops := []string{"zero", "one", "add", "sub", "rsub", "neg", "mul", "sq", "set", "setbytes", "setcanon", "cneg", "csel", "inv", "double", "sqrt", "pow2k", "wide"}
+	ops := []string{"zero", "one", "add", "sub", "rsub", "neg", "mul", "sq", "set", "setbytes", "setcanon", "cneg", "csel", "inv", "double", "sqrt", "pow2k", "wide", "setu64", "setu64"}
 	for round := 0; round < c.scale(6, 60); round++ {
 		start := new(big.Int).Mod(vals[r.Intn(len(vals))], bigP)
 		obj = feFrom(start)
@@ -203,6 +206,13 @@ func fieldLife(c *ctx, r *rand.Rand, vals []*big.Int) {
 				k := 1 + r.Intn(5)
 				ctrl = k
 				obj.Pow2k(obj, uint(k))
+			case "setu64": // the object handed out by the constructor (0 and 1 often) is the caller's to mutate from here on
+				u := r.Uint64() >> uint(r.Intn(40))
+				if r.Intn(2) == 0 {
+					u = uint64(r.Intn(3))
+				}
+				arg = h32(new(big.Int).SetUint64(u))
+				obj = field.NewElementFromUint64(u)
 			case "wide":
 				l := 33 + r.Intn(32)
 				w := randBytes(r, l)
@@ -223,6 +233,8 @@ func fieldLife(c *ctx, r *rand.Rand, vals []*big.Int) {
 func pointLife(c *ctx, r *rand.Rand) {
 	c.nextTrace()
 	rk := func() *big.Int { return add(randBig(r, add(bigN, -1)), 1) }
+	// (kinds: what the constructor is DOCUMENTED to hand out, for the ones where that is a fixed point)
+	srcKinds := []string{"generator", "", "", "", "", "", "", "identity", "identity", "generator", "identity", "neg_generator"}
 	sources := []func() *secp256k1.Point{
 		func() *secp256k1.Point { return secp256k1.NewGeneratorPoint() },
 		func() *secp256k1.Point { // decoded, compressed
@@ -253,35 +265,49 @@ func pointLife(c *ctx, r *rand.Rand) {
 		func() *secp256k1.Point { return secp256k1.NewIdentityPoint() },
 		func() *secp256k1.Point { p := mulG(rk()); return secp256k1.NewIdentityPoint().Subtract(p, p) }, // a computed identity
 		func() *secp256k1.Point { return secp256k1.NewPointFrom(secp256k1.NewGeneratorPoint()) },
+		func() *secp256k1.Point { // the identity, decoded: a fresh object each time, the caller's to mutate
+			p, err := secp256k1.NewPointFromBytes([]byte{0})
+			if err != nil {
+				panic(err)
+			}
+			return p
+		},
+		func() *secp256k1.Point { return secp256k1.NewIdentityPoint().Negate(secp256k1.NewGeneratorPoint()) }, // -G
 	}
 	enc := func(p *secp256k1.Point) string { return hx(p.UncompressedBytes()) }
 	obj := secp256k1.NewGeneratorPoint()
 	other := secp256k1.NewIdentityPoint()
+	srcKind := ""
 	observe := func(op, src, s, t, raw string, ctrl int) {
 		cp := secp256k1.NewPointFrom(obj)
 		other.Set(obj)
+		yoddAny := int(obj.IsYOdd()) // asked of EVERY value, the identity included (its answer is unconstrained; the object must stay as it is)
 		xb, yodd := "err", -1
 		if b, err := obj.XBytes(); err == nil {
 			xb = hx(b)
-			yodd = int(obj.IsYOdd())
+			yodd = yoddAny
 		}
 		cyodd := -1
 		if cp.IsIdentity() == 0 {
 			cyodd = int(cp.IsYOdd())
 		}
-		c.E("pt.Life", "op", op, "src", src, "s", s, "t", t, "bytes", raw, "ctrl", ctrl,
+		c.E("pt.Life", "op", op, "src", src, "src_kind", srcKind, "s", s, "t", t, "bytes", raw, "ctrl", ctrl,
 			"unc", enc(obj), "cmp", hx(obj.CompressedBytes()), "xb", xb, "yodd", yodd, "isid", int(obj.IsIdentity()), "eqself", int(obj.Equal(obj)),
 			"copy_unc", enc(cp), "copy_cmp", hx(cp.CompressedBytes()), "copy_yodd", cyodd, "eqcopy", int(obj.Equal(cp)),
 			"other_unc", enc(other), "other_cmp", hx(other.CompressedBytes()), "unc_again", enc(obj))
 	}
-	ops := []string{"identity", "generator", "set", "add", "radd", "sub", "dbl", "dbl_from", "neg", "neg_from", "cneg", "cneg_from", "csel", "csel2",
+	ops := []string{"replace", "replace", "identity", "generator", "set", "add", "radd", "sub", "dbl", "dbl_from", "neg", "neg_from", "cneg", "cneg_from", "csel", "csel2",
 		"smul", "smul_from", "bmul", "dsm", "dsm_from", "setbytes", "setbytes_bad", "msm1", "msmv"}
 	for round := 0; round < c.scale(6, 60); round++ {
-		obj = sources[r.Intn(len(sources))]()
+		si0 := r.Intn(len(sources))
+		obj = sources[si0]()
+		srcKind = srcKinds[si0]
 		observe("reset", enc(obj), "", "", "", 0)
 		for step := 0; step < 40; step++ {
 			op := ops[r.Intn(len(ops))]
-			src := sources[r.Intn(len(sources))]()
+			si1 := r.Intn(len(sources))
+			src := sources[si1]()
+			srcKind = srcKinds[si1]
 			se := enc(src)
 			sv, tv := randBig(r, bigN), randBig(r, bigN)
 			if r.Intn(6) == 0 {
@@ -291,6 +317,8 @@ func pointLife(c *ctx, r *rand.Rand) {
 			ctrl := b2i(cw != 0)
 			raw := ""
 			switch op {
+			case "replace": // the long-lived object is now whatever a constructor handed out
+				obj = src
 			case "identity":
 				obj.Identity()
 			case "generator":
